@@ -304,6 +304,9 @@ func init() {
 		}
 		return out
 	}
+	models["internal/stringslite.Clone"] = func(p *Path, c *frame, pos token.Pos, fn *ssa.Function, a []Value) Value { return a[0] }
+	models["strings.Clone"] = models["internal/stringslite.Clone"]
+	models["strconv.cloneString"] = models["internal/stringslite.Clone"]
 	models["internal/abi.NoEscape"] = func(p *Path, c *frame, pos token.Pos, fn *ssa.Function, a []Value) Value { return a[0] }
 	models["internal/abi.Escape"] = func(p *Path, c *frame, pos token.Pos, fn *ssa.Function, a []Value) Value { return a[0] }
 
